@@ -83,7 +83,7 @@ def _worker():
         req = json.loads(line)
         c = req.get("c")
         if c == "hello":
-            rep = {"file": psutil.__file__, "version": psutil.__version__,
+            rep = {"file": psutil.__file__, "version": psutil.__version__, "pid": os.getpid(),
                    "ncpu": len(psutil.cpu_times(percpu=True)),
                    "rlimits": sorted((k, getattr(psutil, k)) for k in dir(psutil) if k.startswith("RLIMIT_")),
                    "ioclasses": [int(getattr(psutil, k)) for k in dir(psutil) if k.startswith("IOPRIO_CLASS_")]}
@@ -104,6 +104,14 @@ def _worker():
             rep = {"r": "ok", "uid": os.getuid()}
         elif c == "calls":
             rep = [one(x) for x in req["calls"]]
+        elif c == "kaff":
+            # the affinity system calls as this interpreter's libc sees them (CPython's own wrappers)
+            try:
+                if "set" in req:
+                    os.sched_setaffinity(req["pid"], req["set"])
+                rep = {"r": "ok", "v": sorted(os.sched_getaffinity(req["pid"]))}
+            except OSError as e:
+                rep = {"r": "OSError", "errno": e.errno}
         elif c == "quit":
             break
         else:
@@ -336,7 +344,7 @@ class SanitizerReport(Exception):
 
 
 class Worker:
-    def __init__(self, unprivileged=False):
+    def __init__(self, unprivileged=False, preload=None):
         snap = os.environ["VERIF_SNAPSHOT"]
         env = dict(os.environ)
         env["PYTHONPATH"] = snap
@@ -348,6 +356,8 @@ class Worker:
             env["LD_PRELOAD"] = rt
             env["ASAN_OPTIONS"] = "detect_leaks=0:abort_on_error=0:exitcode=86"
             env["UBSAN_OPTIONS"] = "print_stacktrace=1:halt_on_error=0"
+        if preload:
+            env["LD_PRELOAD"] = (env.get("LD_PRELOAD", "") + " " + preload).strip()
         base = "/dev/shm" if os.path.isdir("/dev/shm") else tempfile.gettempdir()
         self.errf = tempfile.NamedTemporaryFile(prefix="c18-worker-", suffix=".err", dir=base)
         self.p = subprocess.Popen(["/venv/bin/python", "-u", os.path.abspath(__file__).replace(".pyc", ".py")],
